@@ -337,11 +337,12 @@ func loadFindings() []finding {
 // ---- running ----
 
 type shardOut struct {
-	res    *vk.Result
-	err    string
-	crash  string // id of the case being evaluated when the worker died
-	output string
-	died   bool
+	notReproduced bool // C06: the case the worker died on passes alone in a fresh process
+	res           *vk.Result
+	err           string
+	crash         string // id of the case being evaluated when the worker died
+	output        string
+	died          bool
 }
 
 // runShardRestarting runs a shard; for C06 a worker that the library brought down is
@@ -355,6 +356,18 @@ func runShardRestarting(bin, prop, tier, fl string, shard, n int, seed int64, bu
 		outs = append(outs, o)
 		if !o.died || prop != "C06" || o.crash == "" || o.crash == resume {
 			break
+		}
+		if only == "" {
+			// A worker that dies of memory exhaustion after tens of thousands of cases may have
+			// died of its own accumulated heap, not of this input: the input is the cause only
+			// if a fresh process given this one case dies as well. (Shard number 1000+ keeps the
+			// result files apart; -only bypasses sharding.)
+			iso := runShard(bin, prop, tier, fl, 1000+shard, n, seed, budget, o.crash, memKB, gomax, "")
+			if !iso.died && iso.res != nil {
+				outs[len(outs)-1].notReproduced = true
+				iso.res.Notes = append(iso.res.Notes, "a worker died of memory exhaustion while holding the heap of earlier cases; its current case was re-run alone in a fresh process (same limits) and passed, so the death is not attributed to the input; the worker was restarted after that case")
+				outs = append(outs, iso)
+			}
 		}
 		resume = o.crash
 	}
@@ -533,7 +546,7 @@ func runCheck(prop, tier, only string) int {
 	var harnessProblems []string
 	for i, o := range outs {
 		j := outJobs[i]
-		if o.died && o.crash != "" && prop == "C06" {
+		if o.died && o.crash != "" && prop == "C06" && !o.notReproduced {
 			// a dying worker is the C06 violation itself: attribute it to the current case
 			key := "C06/process-abort/" + crashKey(o.crash, o.output)
 			agg.ViolCount[key]++
